@@ -39,6 +39,7 @@ FLOORS = {
     "thorough": {"steps_checked": 5000, "distinct:bigrams": 80, "telescope_checks": 400, "op_mh": 300, "op_mala": 100, "op_hmc": 100, "op_vec_resample_index": 200},
 }
 TIMEOUT_S = {"quick": 1800, "thorough": 7200}
+CLEAR_CACHES_EVERY = {"quick": 0, "thorough": 6}  # see lib/worker.py
 N_CASES = {"quick": 40, "thorough": 300}
 FAMILY_CYCLE = ["builtin", "mixed", "builtin", "probe"]
 GEN_CFG = {"max_stmts": 3, "kinds": {"site": 5, "call": 1.0, "vmap": 1.2, "scan": 0.8, "cond": 2.2, "let": 0.4}}
